@@ -96,18 +96,20 @@ Definition proc_ext (found e : str) : str :=
 Definition opt_eqb (name : str) (o : option str) : bool :=
   match o with Some g => str_eqb name g | None => false end.
 
-(* body of `for name, ext in types_exts:` *)
-Definition tf_step (template filename found : str) (ignored guessed direct : option str)
-  (d : dict) (ne : str * str) : dict :=
+(* body of `for name, ext in types_exts:` — the value stored under tfns[name] *)
+Definition tf_value (template filename found : str) (ignored guessed direct : option str)
+  (ne : str * str) : str :=
   let '(name, ext) := ne in
-  if opt_eqb name direct then dict_set d name template
+  if opt_eqb name direct then template                            (* ...; continue *)
   else
     let fname := filename in
     let fname := if opt_eqb name guessed then fname ++ found      (* user's spelling kept *)
                  else if nonempty ext then fname ++ proc_ext found ext
                  else fname in
-    let fname := if truthy_opt ignored then fname ++ opt_str ignored else fname in
-    dict_set d name fname.
+    if truthy_opt ignored then fname ++ opt_str ignored else fname.
+Definition tf_step (template filename found : str) (ignored guessed direct : option str)
+  (d : dict) (ne : str * str) : dict :=
+  dict_set d (fst ne) (tf_value template filename found ignored guessed direct ne).
 
 (* parse_filename starts with _stringify_path(filename) again; on the stringified template that
    just lost its final dot pathlib changes exactly: '' -> '.', 'x/.' -> 'x', '/.' -> '/' *)
